@@ -4,6 +4,11 @@
 //   props <m>   ->  "<nbody> | id mass ipx ipy ipz Ixx Iyy Izz Ixy Ixz Iyz i0 i1 i2 ngeom | ..."
 // where I = R(body_iquat) diag(body_inertia) R(body_iquat)' is the inertia tensor about body_ipos in the body frame.
 // The quaternion -> matrix conversion is written out here (not taken from the library under test).
+// Edit-and-recompile histories on ONE mjSpec (generic ops `spec <s> .. end`, `compile <m> <s>`, `data <d> <m>` come from
+// mjdrv_common.h):
+//   irange <s> <lo> <hi>                      spec->compiler.inertiagrouprange
+//   gset <s> <geomname> <field> <v1,v2,..>    field: group | density | mass | size | pos   (edits the mjsGeom in place)
+//   recomp <s> <m> <d>                        mj_recompile on the same spec / model / data -> "0" | "error .."
 #include "mjdrv_common.h"
 
 static void quat2mat(const mjtNum q[4], double R[3][3]) {
@@ -35,6 +40,39 @@ static bool extra(const std::vector<std::string>& t, const std::vector<std::stri
     }
     printf("\n");
     return true;
+  }
+  if (t[0] == "irange") {
+    mjSpec* sp = g_spec.at(atoi(t.at(1).c_str()));
+    sp->compiler.inertiagrouprange[0] = atoi(t.at(2).c_str());
+    sp->compiler.inertiagrouprange[1] = atoi(t.at(3).c_str());
+    printf("ok\n"); return true;
+  }
+  if (t[0] == "gset") {
+    mjSpec* sp = g_spec.at(atoi(t.at(1).c_str()));
+    mjsElement* e = mjs_findElement(sp, mjOBJ_GEOM, t.at(2).c_str());
+    if (!e) { printf("error unknown geom %s\n", t.at(2).c_str()); return true; }
+    mjsGeom* g = mjs_asGeom(e);
+    auto v = drv_nums(t.at(4));
+    const std::string& f = t.at(3);
+    if (f == "group") g->group = (int)v.at(0);
+    else if (f == "density") g->density = v.at(0);
+    else if (f == "mass") g->mass = v.at(0);
+    else if (f == "size") { for (int k = 0; k < 3; k++) g->size[k] = v.at(k); }
+    else if (f == "pos") { for (int k = 0; k < 3; k++) g->pos[k] = v.at(k); }
+    else { printf("error unknown field %s\n", f.c_str()); return true; }
+    printf("ok\n"); return true;
+  }
+  if (t[0] == "recomp") {
+    int ss = atoi(t.at(1).c_str()), ms = atoi(t.at(2).c_str()), ds = atoi(t.at(3).c_str());
+    int r = -99;
+    if (HX_TRY) { r = mj_recompile(g_spec.at(ss), nullptr, M(ms), D(ds)); HX_END; } else { drv_err(hx_err); return true; }
+    if (r != 0) {
+      // on failure mj_recompile has freed model and data: forget them
+      g_model.erase(ms); g_data.erase(ds);
+      const char* msg = mjs_getError(g_spec.at(ss));
+      printf("error recompile %d %s\n", r, msg ? msg : ""); return true;
+    }
+    printf("0\n"); return true;
   }
   return false;
 }
